@@ -181,6 +181,22 @@ def run(rep):
                 rep.fail("git-rejects-pack", "git index-pack --strict: %s %s" % (r.get("git_index_pack"), r.get("git_err")), case)
             elif r.get("git_verify_pack") != 0:
                 rep.fail("git-rejects-idx", "git verify-pack on dulwich's index: %s" % r.get("git_verify_err"), case)
+    # the object store's own pack-writing path, with objects passed more than once
+    reqs = []
+    for k in range(6 if not thorough else 60):
+        blobs = [rng.randbytes(rng.randrange(1, 300)) for _ in range(rng.randrange(1, 6))]
+        blobs += rng.sample(blobs, rng.randrange(1, len(blobs) + 1))
+        rng.shuffle(blobs)
+        reqs.append({"fn": "store_add_objects", "blobs": [hx(b) for b in blobs]})
+    for q, r in zip(reqs, impl.run(reqs)):
+        case = {"blobs": [len(unhx(b)) for b in q["blobs"]], "distinct": len(set(q["blobs"]))}
+        rep.case("store-add-objects", key=repr(q)[:500], nontrivial=True, sample=case)
+        if "entries" not in r:
+            rep.fail("add-objects-failed", "DiskObjectStore.add_objects failed: %r" % (r,), case)
+        elif r["entries"] != r["unique"] or not r["readable"]:
+            rep.fail("pack-count", "add_objects: the pack index lists %s entries for %s distinct objects" % (r["entries"], r["unique"]), case)
+        elif r.get("git_index_pack") != 0:
+            rep.fail("git-rejects-pack", "git index-pack --strict on the pack written by add_objects: %s" % r.get("git_err"), case)
     reqs = []
     for k in range(8 if not thorough else 120):
         base = rng.randbytes(4000)
